@@ -4,7 +4,8 @@ Theorems are about `MxlVerif/Model/C16.lean` (linear mapper) and `MxlVerif/Model
 (isotopomer mapper), the `def`s the driver runs.  Only property theorems and non-vacuity
 examples live here.
 -/
-import MxlVerif.Lemmas.C16
+import MxlVerif.Lemmas.C16Int
+import MxlVerif.Lemmas.C05Raw
 import MxlVerif.Generated.C16Facts
 namespace Mxl.C16
 open Mxl.C05
@@ -201,6 +202,167 @@ theorem C16_no_label_stays_none (lrs : List LinRxn) (v C : Name → Rat) (x : Sl
     rw [ih]
     simp only [LinRxn.rate]
     grind
+
+/-- **whole model**: the base model's reactions are a dict (names pairwise distinct), `label_maps`
+    is a dict, every base reaction has a map that is a permutation of its padded positions and a
+    mass-action rate law, both mappers built their model from the same label counts and maps (so
+    every compound carries labels — the linear mapper raises `KeyError` otherwise), pools non-zero.
+    With enrichments and pools taken from an isotopomer state `σ` and the fluxes those of the base
+    model at the totals (`fluxAtTotals`), the derivative `LinearLabelMapper.build_model`'s model
+    gives label position `(x, i)` equals the derivative `LabelMapper.build_model`'s model gives the
+    amount of `x` labelled at `i`, divided by the pool — for every state, every position, whatever
+    the order of `label_maps` (at a base steady state this is d/dt of the positional enrichment) -/
+theorem C16_model_marginal {b : Base} {lv : List (Name × Nat)} {maps : List (Name × List Nat)}
+    {il il' : List (Name × List Nat)} {m : LModel} {lmod : LinModel}
+    (hiso : buildModel b lv maps il = .ok m)
+    (hlin : linearBuild (b.rxns.map fun r => (r.name, r.stoich)) lv maps il' = .ok lmod)
+    (hnd : (b.rxns.map (·.name)).Nodup) (hkd : (maps.map (·.1)).Nodup)
+    (hall : ∀ r ∈ b.rxns, LinOk lv maps r)
+    (σ : LName → Rat) (hC : ∀ c, labelsOf lv c > 0 → totalOf σ c (labelsOf lv c) ≠ 0)
+    (C : Name → Rat) (x : Name) (i : Nat) :
+    linRhs lmod.rxns (enrichOf lv σ) (fluxAtTotals b lv σ) C (Slot.pos x i)
+      = (1 / C x) * ((labelledAt x (labelsOf lv x) i).map (rhsOf m.rxns σ)).sum :=
+  model_marginal hiso hlin hnd hkd hall σ hC C x i
+
+/-- non-vacuity of `C16_model_marginal`: a two-reaction chain with the non-involutive 3-cycle, both
+    mappers build, every base reaction satisfies `LinOk` -/
+example :
+    ∃ (b : Base) (lv : List (Name × Nat)) (maps : List (Name × List Nat)) (m : LModel) (lmod : LinModel),
+      buildModel b lv maps [] = .ok m ∧
+      linearBuild (b.rxns.map fun r => (r.name, r.stoich)) lv maps [] = .ok lmod ∧
+      lmod.rxns.length = 6 ∧ m.rxns.length = 9 ∧
+      (maps.map (·.1)).Nodup ∧ (b.rxns.map (·.name)).Nodup ∧
+      ∀ r ∈ b.rxns, ∃ l, maps.lookup r.name = some l ∧ PermMap (max (nSub lv r) (nProd lv r)) l := by
+  refine ⟨{ pars := [("k", 1)], vars := [("A", 1), ("B", 1)], derived := [],
+            rxns := [{ name := "v1", fn := listProd, args := ["k", "A"], stoich := [("A", -1), ("B", 1)] },
+                     { name := "v0", fn := listProd, args := ["k"], stoich := [("A", 1)] }] },
+    [("A", 3), ("B", 3)], [("v0", [0, 1, 2]), ("v1", [2, 0, 1])], _, _, rfl, rfl,
+    by decide, by decide, by decide, by decide, ?_⟩
+  intro r hr
+  simp only [List.mem_cons, List.not_mem_nil, or_false] at hr
+  rcases hr with rfl | rfl
+  · exact ⟨[2, 0, 1], rfl, by decide⟩
+  · exact ⟨[0, 1, 2], rfl, by decide⟩
+
+/-- **uniform enrichment is stationary, whole model**: for the model `build_model` returns (base
+    reactions a dict, every `label_maps` entry a permutation of its reaction's padded positions), if
+    every position and the external pool have enrichment `e` — any `e`, i.e. any `external_label` —
+    and the fluxes balance every compound over the mapped reactions (a steady state of the base
+    model), every derivative of the linear model is zero -/
+theorem C16_model_uniform_stationary {b : Base} {lv : List (Name × Nat)}
+    {maps : List (Name × List Nat)} {il : List (Name × List Nat)} {lmod : LinModel}
+    (hlin : linearBuild (b.rxns.map fun r => (r.name, r.stoich)) lv maps il = .ok lmod)
+    (hnd : (b.rxns.map (·.name)).Nodup)
+    (hperm : ∀ km ∈ maps, ∀ r ∈ b.rxns, r.name = km.1 → PermMap (max (nSub lv r) (nProd lv r)) km.2)
+    (e : Rat) (v C : Name → Rat) (x : Name) (i : Nat) (hi : i < labelsOf lv x)
+    (hsteady : (maps.map fun km => (netOf b km.1 x : Rat) * v km.1).sum = 0) :
+    linRhs lmod.rxns (fun _ => e) v C (Slot.pos x i) = 0 := by
+  obtain ⟨_, groups, hg, hr, _⟩ := linearBuild_ok hlin
+  have hfa := mapM_ok_forall₂ _ _ _ hg
+  rw [hr, linRhs_flatten]
+  have : (groups.map fun g => linRhs g (fun _ => e) v C (Slot.pos x i)).sum
+      = (maps.map fun km => ((netOf b km.1 x : Rat) * v km.1) * ((1 / C x) * e)).sum := by
+    refine forall₂_map_sum _ _ hfa ?_
+    intro km lrs hkm hlrs
+    obtain ⟨st, hst⟩ := linRxnsOf_known hlrs
+    obtain ⟨r, hrm, hrn⟩ := lookup_baseRxns_some hst
+    have hpm := hperm km hkm r hrm hrn
+    rw [← hrn] at hlrs ⊢
+    have hlk := lookup_baseRxns hnd hrm
+    rw [C16_uniform_contribution lv r km.2 _ lrs hlk (linRxnsOf_labelled hlk hlrs) hpm hlrs e v C x i hi]
+    simp only [netOf, find_of_mem_nodup hnd hrm]
+    grind
+  rw [this, sum_map_mul_right, hsteady]
+  grind
+
+/-- **no external and no initial label ⇒ none appears, whole model**: built without
+    `initial_labels`, every label position starts at enrichment 0 (and the variables are exactly the
+    positions of the listed compounds); with `external_label = 0` every derivative at an all-zero
+    state is zero, whatever the fluxes and pools — so the all-zero state is kept -/
+theorem C16_model_no_label {baseRxns : List (Name × List (Name × Int))} {lv : List (Name × Nat)}
+    {maps : List (Name × List Nat)} {lmod : LinModel}
+    (hlin : linearBuild baseRxns lv maps [] = .ok lmod) :
+    lmod.vars.map (·.1) = lv.flatMap (fun kn => (List.range kn.2).map (Slot.pos kn.1)) ∧
+    (∀ kv ∈ lmod.vars, kv.2 = 0) ∧
+    ∀ (v C : Name → Rat) (x : Slot), linRhs lmod.rxns (fun _ => 0) v C x = 0 := by
+  obtain ⟨_, _, _, _, hv⟩ := linearBuild_ok hlin
+  refine ⟨?_, ?_, fun v C x => C16_no_label_stays_none _ v C x⟩
+  · rw [hv]
+    simp [linInitVars, isosOf, List.map_map, Function.comp_def, List.flatMap_map]
+  · rw [hv]
+    intro kv hkv
+    simp only [linInitVars, List.foldl_nil, List.mem_map] at hkv
+    obtain ⟨_, _, rfl⟩ := hkv
+    rfl
+
+/-- the error classes of the linear mapper's `build_model`, stage by stage: a listed compound with 0
+    positions is a `ValueError` (before anything else); a `label_maps` key that is no reaction of
+    the base model is a `KeyError` -/
+theorem C16_build_errors (baseRxns : List (Name × List (Name × Int))) (lv : List (Name × Nat))
+    (maps : List (Name × List Nat)) (il : List (Name × List Nat)) :
+    ((∃ kn ∈ lv, kn.2 = 0) → linearBuild baseRxns lv maps il = .error .valueError) ∧
+    (∀ isos rxn lm, baseRxns.lookup rxn = none →
+      linRxnsOf isos baseRxns rxn lm = .error (.keyError rxn)) :=
+  ⟨linearBuild_zero_labels, fun isos rxn lm h => linRxnsOf_unknown isos baseRxns rxn lm h⟩
+
+/-- **integer maps** (what the driver runs): `_map_labelmap_to_substrates` reads `substrates[pos]`
+    with Python's index rule (`C05_index_rule`); with every index in `-len ≤ i < len` it is the
+    front-counted map's reading (so `C16_same_direction` applies), an index outside that range in a
+    map of the right length is an `IndexError`; a `label_maps` entry with an integer map gives the
+    per-position reactions of its front-counted form, counted over the padded length — which, for a
+    reaction whose compounds carry labels, is the length of `LabelMapper`'s rate suffix: both mappers
+    resolve a negative index to the same position.  A map without negative indices is read unchanged. -/
+theorem C16_integer_maps (lv : List (Name × Nat)) (baseRxns : List (Name × List (Name × Int))) :
+    (∀ (subs : List Slot) (lm : List Int) (lm' : List Nat), normMap subs.length lm = .ok lm' →
+      mapLabelmapToSubstratesI subs lm = mapLabelmapToSubstrates subs lm') ∧
+    (∀ (subs : List Slot) (lm : List Int), lm.length = subs.length →
+      (∃ e, normMap subs.length lm = .error e) →
+      mapLabelmapToSubstratesI subs lm = .error .indexError) ∧
+    (∀ isos rxn (lm : List Int) (lm' : List Nat), normMap (padLen isos baseRxns rxn) lm = .ok lm' →
+      linRxnsOfI isos baseRxns rxn lm = linRxnsOf isos baseRxns rxn lm') ∧
+    (∀ r : BRxn, baseRxns.lookup r.name = some r.stoich →
+      (∀ c ∈ subsOf r ++ prodsOf r, (lv.lookup c).isSome) →
+      padLen (isosOf lv) baseRxns r.name = max (nSub lv r) (nProd lv r)) ∧
+    (∀ (maps : List (Name × List Nat)) il,
+      linearBuildI baseRxns lv (maps.map fun km => (km.1, km.2.map Int.ofNat)) il
+        = linearBuild baseRxns lv maps il) :=
+  ⟨fun subs lm lm' h => pickSlotsI_eq subs subs lm lm' h,
+   fun subs lm hl h => pickSlotsI_index_error subs subs lm hl.symm h,
+   fun isos rxn lm lm' h => linRxnsOfI_eq isos baseRxns rxn lm lm' h,
+   fun r hlk hlab => padLen_eq lv r baseRxns hlk hlab,
+   fun maps il => linearBuildI_nat baseRxns lv maps il⟩
+
+/-- non-vacuity: `[-1, 0, 1]` on three positions is the rotation `[2, 0, 1]`; `[-4, 0, 1]` raises -/
+example :
+    mapLabelmapToSubstratesI [.pos "A" 0, .pos "A" 1, .pos "A" 2] [-1, 0, 1]
+        = .ok [.pos "A" 2, .pos "A" 0, .pos "A" 1] ∧
+    mapLabelmapToSubstratesI [.pos "A" 0, .pos "A" 1, .pos "A" 2] [-4, 0, 1]
+        = .error .indexError := ⟨rfl, rfl⟩
+
+/-- **coefficients as the base model stores them** (`int | float | Derived`; what the driver runs,
+    `linearBuildP`).  After repo commit "fix: LinearLabelMapper refuses a fractional stoichiometric
+    coefficient ..." the linear mapper's `_unpack_stoichiometries` reads every whole number the same
+    way, whether written `-1` or `-1.0` — exactly like `LabelMapper`'s (`C05_raw_coefficients`), so
+    both mappers see the same integer stoichiometry —; the only rejections are a `Derived`
+    (`NotImplementedError`) and a fractional float (`ValueError`: before the repair `int()` silently
+    truncated 5/2 to 2 and 1/2 to 0), whichever comes first; with no raw coefficients listed the entry
+    point is `linearBuildI` -/
+theorem C16_raw_coefficients :
+    (∀ l : List ((Name × Int) × Bool),
+      unpackLinRaw (l.map fun x => asRaw x.1 x.2) = .ok (unpackLin (l.map (·.1))) ∧
+      intCoefs (l.map fun x => asRaw x.1 x.2) = .ok (l.map (·.1))) ∧
+    (∀ (st : List (Name × Coef)) e, unpackLinRaw st = .error e →
+      e = .notImplementedError ∨ e = .valueError) ∧
+    (∀ (pre : List ((Name × Int) × Bool)) k post,
+      unpackLinRaw ((pre.map fun x => asRaw x.1 x.2) ++ (k, Coef.derived) :: post)
+        = .error .notImplementedError) ∧
+    (∀ (pre : List ((Name × Int) × Bool)) k q post, ((pyTrunc q : Int) : Rat) ≠ q →
+      unpackLinRaw ((pre.map fun x => asRaw x.1 x.2) ++ (k, Coef.float q) :: post) = .error .valueError) ∧
+    (∀ baseRxns lv maps il, linearBuildP baseRxns lv maps [] il = linearBuildI baseRxns lv maps il) :=
+  ⟨fun l => ⟨unpackLinRaw_integral l, intCoefs_integral l⟩, fun st e h => unpackLinRaw_error h,
+   fun pre k post => (unpackLinRaw_first_bad pre k .derived post).1 rfl,
+   fun pre k q post hq => (unpackLinRaw_first_bad pre k (.float q) post).2 q rfl hq,
+   linearBuildP_nil⟩
 
 /-- the facts regenerated from the current `linear_label_map.py` by `translate/c16.py` are the ones
     the model is written for: every mirrored function has its modelled statement shape (no decorator,
